@@ -28,7 +28,7 @@ Qed.
 (* replaying the effects of a run reproduces the file the run ends with *)
 Theorem effects_replay fuel : forall c s, replay (file s) (effects fuel c s) = file (fst (exec fuel c s)).
 Proof.
-  induction c as [ |a IHa b IHb|x e|a e|k v|cnd a IHa b IHb|cnd IHcnd x body IHbody| |z|e|e|e|x|x n|e|e| |w|x h d|body IHbody|body IHbody
+  induction c as [ |a IHa b IHb|x e|a e|k v|cnd a IHa b IHb|cnd IHcnd x body IHbody| |z|e|e|e|x|x n|e|e| |w|x h d|args body IHbody|args body IHbody
                  |body IHbody handler IHh els IHe| ]; intros s; cbn [effects exec]; try reflexivity.
   - (* SSeq *) specialize (IHa s). destruct (exec fuel a s) as [s1 o] eqn:E1. cbn [fst] in IHa.
     rewrite replay_app, IHa. destruct o; cbn [replay fold_left]; try reflexivity. apply IHb.
@@ -48,8 +48,18 @@ Proof.
   - (* STruncate *) destruct (s_closed (strm s)); [reflexivity|]. destruct (eval s e) as [[]|]; try reflexivity.
     destruct (s_wr (strm s)); reflexivity.
   - (* SUnpackRead *) destruct (s_closed (strm s)); [reflexivity|]. unfold do_read. destruct (unpack h _); reflexivity.
-  - (* SCall *) specialize (IHbody s). destruct (exec fuel body s) as [s1 o]. cbn [fst] in *. rewrite IHbody. destruct o; reflexivity.
-  - (* SCallRet *) specialize (IHbody s). destruct (exec fuel body s) as [s1 o]. cbn [fst] in *. rewrite IHbody. destruct o; reflexivity.
+  - (* SCall *) assert (Fb : forall s0, bind_args s s0 args = Val s0 \/ True) by (intros; right; exact I).
+    assert (Ff : forall a acc s0, bind_args s acc a = Val s0 -> file s0 = file acc).
+    { induction a as [|[p e] a IHa]; intros acc s0 H; cbn [bind_args] in H; [inversion H; reflexivity|].
+      destruct (eval s e); [|discriminate]. rewrite (IHa _ _ H). reflexivity. }
+    destruct (bind_args s s args) as [s0|z] eqn:Eb; [|reflexivity]. pose proof (Ff _ _ _ Eb) as F0.
+    specialize (IHbody s0). destruct (exec fuel body s0) as [s1 o]. cbn [fst restore_locals file] in *. rewrite <- F0, IHbody. destruct o; reflexivity.
+  - (* SCallRet *)
+    assert (Ff : forall a acc s0, bind_args s acc a = Val s0 -> file s0 = file acc).
+    { induction a as [|[p e] a IHa]; intros acc s0 H; cbn [bind_args] in H; [inversion H; reflexivity|].
+      destruct (eval s e); [|discriminate]. rewrite (IHa _ _ H). reflexivity. }
+    destruct (bind_args s s args) as [s0|z] eqn:Eb; [|reflexivity]. pose proof (Ff _ _ _ Eb) as F0.
+    specialize (IHbody s0). destruct (exec fuel body s0) as [s1 o]. cbn [fst restore_locals file] in *. rewrite <- F0, IHbody. destruct o; reflexivity.
   - (* STryElse *) specialize (IHbody s). destruct (exec fuel body s) as [s1 o] eqn:E1. cbn [fst] in IHbody.
     rewrite replay_app, IHbody. destruct o; cbn [replay fold_left]; try reflexivity.
     + apply IHe.
@@ -128,7 +138,7 @@ Fixpoint no_writes (c : stmt) : bool :=
   match c with
   | SWrite _ | STruncate _ => false
   | SSeq a b | SIf _ a b | SWhile a _ b => no_writes a && no_writes b
-  | SCall a | SCallRet a => no_writes a
+  | SCall _ a | SCallRet _ a => no_writes a
   | STryElse a b c0 => no_writes a && no_writes b && no_writes c0
   | _ => true
   end.
@@ -142,14 +152,14 @@ Qed.
 
 Lemma no_writes_no_effects fuel : forall c s, no_writes c = true -> effects fuel c s = [].
 Proof.
-  induction c as [ |a IHa b IHb|x e|a e|k v|cnd a IHa b IHb|cnd IHcnd x body IHbody| |z|e|e|e|x|x n|e|e| |w|x h d|body IHbody|body IHbody
+  induction c as [ |a IHa b IHb|x e|a e|k v|cnd a IHa b IHb|cnd IHcnd x body IHbody| |z|e|e|e|x|x n|e|e| |w|x h d|args body IHbody|args body IHbody
                  |body IHbody handler IHh els IHe| ]; intros s H; cbn [effects no_writes] in *; try reflexivity; try discriminate.
   - apply andb_prop in H. destruct H as [Ha Hb]. destruct (exec fuel a s) as [s1 o]. rewrite IHa by exact Ha.
     destruct o; try reflexivity. apply IHb; exact Hb.
   - apply andb_prop in H. destruct H as [Ha Hb]. destruct (eval s cnd) as [v|]; [|reflexivity]. destruct (truthy v); [apply IHa|apply IHb]; assumption.
   - apply andb_prop in H. destruct H as [Ha Hb]. apply wloop_eff_nil; intros s0; [apply IHcnd|apply IHbody]; assumption.
-  - apply IHbody; exact H.
-  - apply IHbody; exact H.
+  - destruct (bind_args s s args); [apply IHbody; exact H|reflexivity].
+  - destruct (bind_args s s args); [apply IHbody; exact H|reflexivity].
   - apply andb_prop in H. destruct H as [H Hc]. apply andb_prop in H. destruct H as [Ha Hb].
     destruct (exec fuel body s) as [s1 o]. rewrite IHbody by exact Ha. destruct o; try reflexivity; [apply IHe|apply IHh]; assumption.
 Qed.
